@@ -12,7 +12,10 @@ Theorem c05_adopted_is_distributed : forall s m g a s',
   step s (AssignBegin m g a) = Some s' ->
   exists r d, find_gen g (hist s) = Some r /\ g_dist r = Some d /\
               a = match lookup m d with Some l => l | None => [] end /\
-              owned (get s' m) = a /\ ph (get s m) = PJoined g.
+              owned (get s' m) = a /\
+              (ph (get s m) = PJoined g \/
+               (* a re-sent JoinGroup answered with the still current generation the member belongs to *)
+               (ph (get s m) = PJoining /\ g = latest_gen s /\ In m (g_members r))).
 Proof. exact adopted_is_distributed. Qed.
 Print Assumptions c05_adopted_is_distributed.
 
